@@ -798,6 +798,89 @@ def _short(x):
     return s if len(s) < 200 else s[:200] + f"...<{len(s)} chars>"
 
 
+def run_packing(ctx: Ctx, hc):
+    """Byte-level packing (stream `pack`): the nonces and length prefixes the code really hands to the cipher,
+    frame by frame, compared with the model's `packNonce` / `packLength` (theorems C04_nonce, C05_wire_bytes,
+    C05_nonce_unique), plus the module-level packers at and beyond their limits where they are reachable by name."""
+    import struct
+
+    st = ctx.stats
+    rng = ctx.rng
+    calls = []
+
+    class Rec:
+        """records (kind, nonce, aad, len) of every cipher call; seals transparently, opens everything"""
+
+        def __init__(self, key):
+            pass
+
+        def encrypt(self, nonce, data, aad):
+            calls.append(("enc", bytes(nonce), bytes(aad or b""), len(data)))
+            return bytes(data) + b"\0" * 16
+
+        def decrypt(self, nonce, data, aad):
+            calls.append(("dec", bytes(nonce), bytes(aad or b""), len(data) - 16))
+            return bytes(data[:-16])
+
+    n_msgs = ctx.n(6, 40)
+    sizes = [1, 1023, 1024, 1025, 2048, 2049] + [rng.choice([1, 5, 300, 1024, 3000, 5000]) for _ in range(n_msgs)]
+    with mock.patch.object(hc, "ChaCha20Poly1305", Rec):
+        c = hc.HAPCrypto(SHARED)
+        for n in sizes:
+            b"".join(c.encrypt(bytes(n)))
+        tx = [x for x in calls if x[0] == "enc"]
+        del calls[:]
+        c2 = hc.HAPCrypto(SHARED)
+        rx_lens = [1, 2, 255, 256, 1024] + [rng.randrange(1, 1025) for _ in range(ctx.n(20, 200))]
+        stream = b"".join(l.to_bytes(2, "little") + bytes(l + 16) for l in rx_lens)
+        pos = 0
+        while pos < len(stream):
+            k = rng.choice([1, 7, 19, 300, 5000])
+            c2.receive_data(stream[pos : pos + k])
+            c2.decrypt()
+            pos += k
+        rx = [x for x in calls if x[0] == "dec"]
+    direct_counters = [0, 1, 255, 256, 65535, 2**32 - 1, 2**32, 2**63, 2**64 - 1, 2**64, 2**64 + 5] + [
+        rng.randrange(2**64) for _ in range(ctx.n(10, 100))
+    ]
+    direct_lengths = [0, 1, 255, 256, 1023, 1024, 1025, 65535, 65536, 70000]
+
+    def call(f, v):
+        try:
+            return hx(f(v))
+        except Exception:  # which exception class refuses an out-of-range value is not behaviour anyone relies on
+            return "struct.error"
+
+    pn, pl = getattr(hc, "PACK_NONCE", None), getattr(hc, "PACK_LENGTH", None)
+    lines = [
+        {"layer": "frame", "op": "pack", "counters": list(range(len(tx))), "lengths": [x[3] for x in tx]},
+        {"layer": "frame", "op": "pack", "counters": list(range(len(rx))), "lengths": [x[3] for x in rx]},
+        {"layer": "frame", "op": "pack", "counters": direct_counters, "lengths": direct_lengths},
+    ]
+    model = run_model_parallel("C04", lines)
+    for name, recs, m in (("tx", tx, model[0]), ("rx", rx, model[1])):
+        st.hit("op", f"pack:{name}-frames", len(recs))
+        st.traces_validated += 1
+        impl = {"nonces": [hx(x[1]) for x in recs], "lengths": [hx(x[2]) for x in recs]}
+        if (m.get("nonces"), m.get("lengths")) != (impl["nonces"], impl["lengths"]):
+            bad = next((i for i, (a, b) in enumerate(zip(m.get("nonces", []), impl["nonces"])) if a != b), None)
+            ctx.disagree("pack", {"direction": name, "frames": len(recs), "first_nonce_mismatch_at_frame": bad},
+                         _short({"nonces": m.get("nonces", [])[:3], "lengths": m.get("lengths", [])[:3]}),
+                         _short({"nonces": impl["nonces"][:3], "lengths": impl["lengths"][:3]}))
+        st.case(("pack", name, len(recs)), len(recs) > 1)
+    if pn is not None and pl is not None:
+        impl = {"nonces": [call(pn, n) for n in direct_counters], "lengths": [call(pl, n) for n in direct_lengths]}
+        st.traces_validated += 1
+        st.hit("op", "pack:direct", len(direct_counters) + len(direct_lengths))
+        st.hit("outcome", "pack:struct.error", impl["nonces"].count("struct.error") + impl["lengths"].count("struct.error"))
+        if (model[2].get("nonces"), model[2].get("lengths")) != (impl["nonces"], impl["lengths"]):
+            ctx.disagree("pack", {"direct": True, "counters": [str(x) for x in direct_counters[:11]]},
+                         _short(model[2]), _short(impl))
+        st.case(("pack", "direct", len(direct_counters)), True)
+    else:
+        st.notes.append("PACK_NONCE / PACK_LENGTH not reachable by name: limits beyond the recorded frames not compared")
+
+
 def run(ctx: Ctx):
     hc = _mods()
     ctx.stats.rule = (
@@ -808,11 +891,13 @@ def run(ctx: Ctx):
         "(second pair-verify inside the session; frames of the new key from counter 0, of the superseded key, of the new "
         "key with the old counter; mock runs compared with the model's `rekey`), single reads beyond 64 KiB, and several "
         "sessions alive at once with reads interleaved across connections (solo-run oracle per connection; mock runs "
-        "compared with the model's `Pool.run`). "
+        "compared with the model's `Pool.run`), and the byte-level packing stream (nonce and length prefix handed to the cipher "
+        "for every frame of a sent and a received stream, module-level packers at and beyond 2^64 / 2^16, vs the model). "
         "Non-trivial = more than one frame or more than one read or a tamper op; distinct by sizes, tamper, chunking."
     )
     ctx.assumptions.append("host is little-endian (Struct('H') is native order): " + sys.byteorder)
     run_mock_stream(ctx, hc)
+    run_packing(ctx, hc)
     run_real_stream(ctx, hc)
     run_protocol_level(ctx, hc)
     run_upgrade_boundary(ctx, hc)
@@ -822,7 +907,7 @@ def run(ctx: Ctx):
     from common import pyhap_debug_logging
 
     saved = ctx.budget_scale
-    ctx.budget_scale = 0.2
+    ctx.budget_scale = 0.2 * saved
     try:
         with pyhap_debug_logging():
             _DEBUG_LOGGING[0] = True
